@@ -953,16 +953,19 @@ def purgeIsNoop : Kind → Bool
 accessor) pairs whose value contains the target.  The XPath pre-filter selects every element that has – or
 whose child has – an attribute other than `href` mentioning `#<uuid>`; each is wrapped and every relation
 of its class is read; a read that raises is skipped. Only writable accessors reach a purge context. -/
-def findReferences (t : Tables) (target : Nat) : M (List RefHit) := do
-  let s ← getS
+def refIndex (s : State) : List (Row × List String) :=
+  s.frags.flatMap (fun f => f.rows.filterMap (fun r =>
+    let ids := r.attrs.flatMap (fun (k, v) => if k != "href" && v.contains '#' then refIds v else [])
+    if ids.isEmpty then none else some (r, ids)))
+
+def findReferences (t : Tables) (idx : List (Row × List String)) (target : Nat) : M (List RefHit) := do
   let uuid ← match (← attrOf target "id") with | some u => pure u | none => raise .valueError
   let mut elems : List Nat := []
-  for f in s.frags do
-    for r in f.rows do
-      if r.attrs.any (fun (k, v) => k != "href" && v.contains '#' && (refIds v).contains uuid) then
-        -- document order: a parent comes before its child
-        for o in (r.parent.toList ++ [r.nid]) do
-          if !elems.contains o then elems := elems ++ [o]
+  for (r, ids) in idx do
+    if ids.contains uuid then
+      -- document order: a parent comes before its child
+      for o in (r.parent.toList ++ [r.nid]) do
+        if !elems.contains o then elems := elems ++ [o]
   let mut out : List RefHit := []
   for o in elems do
     let r ← getRow o
@@ -999,12 +1002,13 @@ def deleteElems (t : Tables) (self : ARow) (elements : List Nat) : M Unit := do
   let mut descendants : List Nat := []
   for e in elements do descendants := descendants ++ (← iterDescendants 16 e)
   let all := descendants ++ elements
+  let idx := refIndex (← getS)       -- the enter phase writes nothing: one scan serves every target
   let mut exits : List PurgeExit := []
   -- enter phase: nothing is written; an exception unwinds the stack with the exception passed to the
   -- generators, none of which catches it
   for e in all do
     if (← attrOf e "id").isSome then
-      for h in (← findReferences t e) do
+      for h in (← findReferences t idx e) do
         if h.row.cls == self.cls && h.row.attr == self.attr then pure ()        -- `acc is self`
         else if !h.row.writable then pure ()
         else
